@@ -37,3 +37,10 @@ Definition src_when_called_touches_nothing : bool := WHEN_CALLED_TOUCHES_NOTHING
 Definition src_gate_first : bool := GATE_IS_THE_FIRST_STATEMENT =? 1.
 Lemma src_refusal_shape : src_when_called_touches_nothing && src_gate_first = true.
 Proof. reflexivity. Qed.
+
+(* the guard as found in the source: NoPoisonMutex::lock is one blocking acquisition that hands out the guard also when an earlier holder
+   panicked (no try_lock anywhere), and prevent() takes that same lock as new() does: the Acquire step of Lock.v *)
+Definition src_lock_blocking_no_poison : bool := LOCK_IS_ONE_BLOCKING_ACQUIRE_IGNORING_POISON =? 1.
+Definition src_prevent_same_lock : bool := PREVENT_TAKES_THE_SAME_LOCK =? 1.
+Lemma src_lock_shape : src_lock_blocking_no_poison && src_prevent_same_lock && src_new_takes_lock && src_lock_dropped_last = true.
+Proof. reflexivity. Qed.
